@@ -18,7 +18,8 @@ META = {
              "and >=1 delivered combination mixing a category with a marginal marker; distinct by content hash"),
     "require": {t: ["class:ndims=1", "class:ndims=4", "class:n=0", "class:common_without_rows", "class:empty_intersection",
                     "events:mixed", "events:all_uncommon", "walk:callbacks=3", "via:interactions",
-                    "walk:after_in_place_edit", "class:strided_rowid_arrays", "walk:repeated"] for t in ("quick", "thorough")},
+                    "walk:after_in_place_edit", "class:strided_rowid_arrays", "walk:repeated",
+                    "class:frequent_category_stored_explicitly"] for t in ("quick", "thorough")},
     "assumptions": ["the order of delivery is not part of the property; only the multiset of (coordinates, row ids)"],
 }
 
@@ -32,6 +33,16 @@ def shards(tier):
 def cases(ctx):
     rng = ctx.rng
     for i in range(ctx.shard["n"]):
+        if i % 150 == 77:
+            # thousands of rows, a frequent category stored explicitly: long row-id lists against short ones
+            from .c02 import lopsided_case
+
+            c = lopsided_case(rng)
+            c["shape"] = None
+            c["ncallbacks"], c["via"], c["stride_seed"], c["edit_seed"] = 1, "interactions", None, None
+            ctx.count("class:frequent_category_stored_explicitly")
+            yield c
+            continue
         c = gen.cube_case(rng, min_dims=1, max_dims=4, max_axes=1, n=gen.pick(rng, [0, 1, 3, 8, 20, 200]))
         c["ncallbacks"] = int(rng.integers(1, 4))
         c["stride_seed"] = int(rng.integers(0, 2 ** 31)) if rng.random() < 0.25 else None
